@@ -67,7 +67,8 @@ def run(prop, tier, replay):
     if replay:
         scripts, exported = [replayed], []
     else:
-        mc = run_tlc("MCStbcContainer", "MCStbcContainer", workers=8, coverage=True, timeout=2400, tag="mc-c11")
+        mc = run_tlc("MCStbcContainer", "MCStbcContainer" if tier == "quick" else "MCStbcContainer_thorough", workers=8,
+                     coverage=True, timeout=2400, tag="mc-c11")
         cov = mc.get("action_coverage", {})
         for a in NEED_ACTIONS:
             if cov.get(a, 0) == 0:
@@ -125,6 +126,7 @@ def run(prop, tier, replay):
         "layout_runs": verdict["frames"],
         "lifecycle_runs": verdict["lives"],
         "unmutated_round_trips": sum(1 for r in rows if r["a"] == "RoundTrip"),
+        "hot_reloads_through_a_resource_thread": sum(1 for r in rows if r["a"] == "Apply" and r.get("reload") in ("ok", "err")),
         "program_shapes": len({json.dumps(s["prog"], sort_keys=True) for s in allscripts if "prog" in s}),
         "scripts_dropped_by_compiler": len(runs) - len(live),
         "events_validated": len(rows),
